@@ -42,7 +42,7 @@ Fixpoint starts_with_reset (ic : list icall) : bool :=
   end.
 
 Section Panel.
-Variables (D : driver) (PP : pspec) (isig : list N) (lr0 lr1 : list (N * list N)) (alpha : list (list op)).
+Variables (D : driver) (PP : pspec) (isig : list N) (lr0 lr1 : list (N * list N)) (cref : list N) (alpha : list (list op)).
 
 (** one call on (fields, controller): transport calls are fed to the controller model *)
 Definition rcall (k : N) (d : dstate) (c : cstate) (o : op) : option (dstate * cstate * list effect * list icall) :=
@@ -89,7 +89,7 @@ Fixpoint macro_fields (s : vstate) (m : list op) : list dstate :=
           match f (v_d s) with
           | (_, _, t) =>
               fields_of_trace (v_d s) t ++
-              match fst (vop D PP isig lr0 lr1 0 s o) with
+              match fst (vop D PP isig lr0 lr1 cref 0 s o) with
               | Some s1 => macro_fields s1 r
               | None => []
               end
@@ -99,7 +99,7 @@ Fixpoint macro_fields (s : vstate) (m : list op) : list dstate :=
 
 (** the fields after the whole macro step completed (the driver that never failed) *)
 Definition macro_done (s : vstate) (m : list op) : option dstate :=
-  match fst (vmacro D PP isig lr0 lr1 0 s m) with Some s1 => Some (v_d s1) | None => None end.
+  match fst (vmacro D PP isig lr0 lr1 cref 0 s m) with Some s1 => Some (v_d s1) | None => None end.
 
 Definition dpair_eqb (a b : dstate * dstate) : bool :=
   (if dstate_eq_dec (fst a) (fst b) then true else false) && (if dstate_eq_dec (snd a) (snd b) then true else false).
@@ -208,13 +208,13 @@ Qed.
 
 (** instantiation *)
 Definition p_recover_ok (ft : feat) (P0 : pspec) (R : list vstate) : bool :=
-  recover_ok (iD ft P0) (iPP ft P0) (iisig ft P0) (ilr ft P0 0) (ilr ft P0 1) (ialpha P0) R.
+  recover_ok (iD ft P0) (iPP ft P0) (iisig ft P0) (ilr ft P0 0) (ilr ft P0 1) (icref ft P0) (ialpha P0) R.
 Definition p_pairs (ft : feat) (P0 : pspec) (R : list vstate) :=
-  pairs (iD ft P0) (iPP ft P0) (iisig ft P0) (ilr ft P0 0) (ilr ft P0 1) (ialpha P0) R.
+  pairs (iD ft P0) (iPP ft P0) (iisig ft P0) (ilr ft P0 0) (ilr ft P0 1) (icref ft P0) (ialpha P0) R.
 
 (** ** what [recover_ok] means *)
 Section Meaning.
-Variables (D : driver) (PP : pspec) (isig : list N) (lr0 lr1 : list (N * list N)) (alpha : list (list op)).
+Variables (D : driver) (PP : pspec) (isig : list N) (lr0 lr1 : list (N * list N)) (cref : list N) (alpha : list (list op)).
 
 Lemma dpair_eqb_eq a b : dpair_eqb a b = true -> a = b.
 Proof.
@@ -241,9 +241,9 @@ Qed.
     interrupted in (the fields in force at any of its SPI-transferring transport calls): wake_up begins with
     a hardware reset, and the recovery suffix ends with the same addressing/power registers and the same
     image burst and refresh as on the driver on which the same macro step completed without a failure. *)
-Theorem recover_ok_spec R : recover_ok D PP isig lr0 lr1 alpha R = true ->
-  forall s m d d1, In s R -> In m alpha -> macro_done D PP isig lr0 lr1 s m = Some d1 ->
-  In d (macro_fields D PP isig lr0 lr1 s m) -> pair_ok D PP (d, d1) = true.
+Theorem recover_ok_spec R : recover_ok D PP isig lr0 lr1 cref alpha R = true ->
+  forall s m d d1, In s R -> In m alpha -> macro_done D PP isig lr0 lr1 cref s m = Some d1 ->
+  In d (macro_fields D PP isig lr0 lr1 cref s m) -> pair_ok D PP (d, d1) = true.
 Proof.
   intros OK s m d d1 Hs Hm Hdone Hd. unfold recover_ok in OK. rewrite forallb_forall in OK. apply OK.
   unfold pairs. apply dedup_pairs_in. apply in_flat_map. exists s. split; [assumption|].
